@@ -229,6 +229,11 @@ class ExprMixin:
             sv = self.lit_to_sv(lit)
         except Exception:
             pass
+        if sv is None and isinstance(value_ast, (ast.Set, ast.Tuple, ast.List)) and \
+                all(isinstance(x, (ast.Name, ast.Constant)) for x in value_ast.elts):
+            tmp_fr = Frame(type("F", (), {"file": file, "lineno": 0, "key": file})(), None, None)
+            self.init_frame(tmp_fr)
+            sv = self.ev(value_ast, St(), tmp_fr)
         if sv is None:
             t = z3.Const(f"G_{name}", self.voc.Val)
             self.add_global_fact(self.voc.fn("born", self.voc.Val, z3.IntSort())(t) == 0)
@@ -538,6 +543,20 @@ class ExprMixin:
             return SV(o, "list", py=("setorder", sv))
         if sv.pt == "dict":
             return SV(v.dkeys(sv.t), "list")
+        if sv.pt in ("dvalues", "ditems"):
+            d = sv.py[1]
+            f = v.fn("dvalues_list" if sv.pt == "dvalues" else "ditems_list", v.Val, v.Val)
+            R = f(d.t)
+            j = self.bv("dj", z3.IntSort())
+            keys = v.dkeys(d.t)
+            st.facts.append(v.slen(R) == v.dlen(d.t))
+            st.facts.append(v.ty(R) == v.cls["list"])
+            if sv.pt == "dvalues":
+                body = v.sat(R, j) == v.dget(d.t, v.sat(keys, j))
+            else:
+                body = v.sat(R, j) == v.sapp(v.sapp(v.tnil, v.sat(keys, j)), v.dget(d.t, v.sat(keys, j)))
+            st.facts.append(z3.ForAll([j], z3.Implies(z3.And(0 <= j, j < v.dlen(d.t)), body), patterns=[v.sat(R, j)]))
+            return SV(R, "list")
         if sv.pt == "pydict":
             return self.as_seq(SV(None, "pylist", py=("items", [k for k, _ in sv.py[1]])), st, fr, node)
         if sv.pt.startswith("obj:"):
